@@ -153,3 +153,269 @@ Proof.
     + apply H. exists ptop, pcnt, ntop. auto.
     + congruence.
 Qed.
+
+(* ================================================================================================
+   3. one board: parse, skip to the counter-0 marker, first-marker check; failure conditions
+   ================================================================================================ *)
+Lemma position_from_first {A} (f : A -> bool) : forall l,
+  match position f l with
+  | Some i => from_first f l = Some (skipn i l)
+  | None => from_first f l = None
+  end.
+Proof.
+  induction l as [|x t IH]; cbn [position from_first]; [reflexivity|].
+  destruct (f x); [reflexivity|]. destruct (position f t); cbn [skipn]; assumption.
+Qed.
+
+Lemma from_first_head {A} (f : A -> bool) : forall l s, from_first f l = Some s ->
+  exists x t, s = x :: t /\ f x = true.
+Proof.
+  induction l as [|x t IH]; cbn [from_first]; intros s; [discriminate|].
+  destruct (f x) eqn:E; [intros [= <-]; eauto|apply IH].
+Qed.
+
+Lemma from_first_none {A} (f : A -> bool) : forall l, from_first f l = None <-> forallb (fun x => negb (f x)) l = true.
+Proof.
+  induction l as [|x t IH]; cbn [from_first forallb]; [tauto|].
+  destruct (f x); cbn [negb andb]; [split; discriminate|assumption].
+Qed.
+
+(* the suffix found is really a suffix, and nothing before it is a counter-0 marker *)
+Lemma from_first_split {A} (f : A -> bool) : forall l s, from_first f l = Some s ->
+  exists pre, l = pre ++ s /\ forallb (fun x => negb (f x)) pre = true.
+Proof.
+  induction l as [|x t IH]; cbn [from_first]; intros s; [discriminate|].
+  destruct (f x) eqn:E.
+  - intros [= <-]. exists []. split; reflexivity.
+  - intros H. destruct (IH s H) as (pre & -> & Hp). exists (x :: pre). split; [reflexivity|].
+    cbn [forallb]. rewrite E. assumption.
+Qed.
+
+(* cb_board_fifo as a function of the parse result *)
+Lemma cb_board_fifo_eq buffer :
+  cb_board_fifo buffer =
+  match cb_fifo buffer with
+  | (_, _ :: _) => Err E_BAD_FIFO
+  | (fifo, []) =>
+      match from_first is_mk0 fifo with
+      | None => Err E_NO_EPOCH0
+      | Some (MK true _ :: _) => Err E_BAD_FIRST
+      | Some f => Ok f
+      end
+  end.
+Proof.
+  unfold cb_board_fifo. destruct (cb_fifo buffer) as [fifo input]. destruct input; [|reflexivity].
+  pose proof (position_from_first is_mk0 fifo) as H. destruct (position is_mk0 fifo) as [i|]; rewrite H; [|reflexivity].
+  destruct (from_first_head _ _ _ H) as (x & t & Hs & Hx). rewrite Hs.
+  destruct x as [? ? ?|top c]; [discriminate|]. destruct top; reflexivity.
+Qed.
+
+Theorem cb_board_fifo_ok buffer f :
+  cb_board_fifo buffer = Ok f <->
+  exists es t, cb_fifo buffer = (es, []) /\ from_first is_mk0 es = Some f /\ f = MK false 0 :: t.
+Proof.
+  rewrite cb_board_fifo_eq. destruct (cb_fifo buffer) as [fifo input]. split.
+  - destruct input; [|discriminate]. destruct (from_first is_mk0 fifo) as [s|] eqn:Ef; [|discriminate].
+    destruct (from_first_head _ _ _ Ef) as (x & t & -> & Hx).
+    destruct x as [? ? ?|top c]; [discriminate|]. cbn [is_mk0] in Hx. apply N.eqb_eq in Hx. subst c.
+    destruct top; [discriminate|]. intros [= <-]. eauto.
+  - intros (es & t & [= -> ->] & -> & ->). reflexivity.
+Qed.
+
+Lemma cb_board_fifo_no_panic buffer : cb_board_fifo buffer <> Panic.
+Proof.
+  rewrite cb_board_fifo_eq. destruct (cb_fifo buffer) as [fifo input]. destruct input; [|discriminate].
+  destruct (from_first is_mk0 fifo) as [s|] eqn:Ef; [|discriminate].
+  destruct (from_first_head _ _ _ Ef) as (x & t & -> & Hx).
+  destruct x as [? ? ?|top c]; [discriminate|]. destruct top; discriminate.
+Qed.
+
+(* the parse of  p ++ r  when p is a sequence of complete elements and r does not start with one *)
+Lemma cb_fifo_elems p es : Elems p es -> forall r, next r = None -> cb_fifo (p ++ r) = (es, r).
+Proof.
+  induction 1 as [|b0 b1 b2 b3 e p es Hw _ IH|blk p es Hb _ IH]; intros r Hr.
+  - apply cb_stuck_fix. assumption.
+  - rewrite cb_step. cbn [app next]. rewrite Hw. rewrite (IH r Hr). reflexivity.
+  - rewrite cb_step. cbn [app next]. change (word 60 0 0 254) with (@None entry).
+    cbn [N.eqb Pos.eqb andb].
+    replace (SCALERS_BODY <=? lenN ((blk ++ p) ++ r)) with true
+      by (symmetry; apply N.leb_le; rewrite !lenN_app, Hb; unfold SCALERS_BODY, NUM_INPUT_CHANNELS; lia).
+    rewrite <- app_assoc. rewrite (dropN_app_exact blk (p ++ r) SCALERS_BODY) by (rewrite Hb; reflexivity).
+    apply IH. assumption.
+Qed.
+
+(* --- the three ways a stream can be malformed (property text), each leaves a non-empty remainder --- *)
+(* (a) the stream ends inside a 4-byte entry *)
+Lemma next_short r : (length r < 4)%nat -> next r = None.
+Proof. destruct r as [|b0 [|b1 [|b2 [|b3 t]]]]; cbn [length]; try reflexivity. lia. Qed.
+(* (b) the stream ends inside a scaler block *)
+Lemma next_partial_scalers t : lenN t < 240 -> next (0x3C :: 0 :: 0 :: 0xFE :: t) = None.
+Proof.
+  intros H. cbn [next]. change (word 60 0 0 254) with (@None entry). cbn [N.eqb Pos.eqb andb].
+  replace (SCALERS_BODY <=? lenN t) with false; [reflexivity|].
+  symmetry. apply N.leb_gt. unfold SCALERS_BODY, NUM_INPUT_CHANNELS. lia.
+Qed.
+(* (c) a word that is neither a timestamp, a marker nor the tag of a scaler block *)
+Lemma next_bad_word b0 b1 b2 b3 t :
+  word b0 b1 b2 b3 = None -> (b0, b1, b2, b3) <> (0x3C, 0, 0, 0xFE) -> next (b0 :: b1 :: b2 :: b3 :: t) = None.
+Proof.
+  intros Hw Ht. cbn [next]. rewrite Hw.
+  destruct (N.eqb_spec b0 60); destruct (N.eqb_spec b1 0); destruct (N.eqb_spec b2 0); destruct (N.eqb_spec b3 254);
+    cbn [andb]; try reflexivity. subst. congruence.
+Qed.
+
+Theorem cb_board_fail_remainder p es r :
+  Elems p es -> r <> [] -> next r = None -> cb_board_fifo (p ++ r) = Err E_BAD_FIFO.
+Proof.
+  intros He Hr Hn. rewrite cb_board_fifo_eq, (cb_fifo_elems p es He r Hn). destruct r; [congruence|reflexivity].
+Qed.
+
+Theorem cb_board_fail_no_epoch0 p es :
+  Elems p es -> forallb (fun e => negb (is_mk0 e)) es = true -> cb_board_fifo p = Err E_NO_EPOCH0.
+Proof.
+  intros He Hf. rewrite cb_board_fifo_eq. rewrite <- (app_nil_r p), (cb_fifo_elems p es He [] eq_refl).
+  apply from_first_none in Hf. rewrite Hf. reflexivity.
+Qed.
+
+Theorem cb_board_fail_bad_first p pre c post :
+  Elems p (pre ++ MK true c :: post) -> forallb (fun e => negb (is_mk0 e)) pre = true -> c = 0 ->
+  cb_board_fifo p = Err E_BAD_FIRST.
+Proof.
+  intros He Hf ->. rewrite cb_board_fifo_eq. rewrite <- (app_nil_r p), (cb_fifo_elems p _ He [] eq_refl).
+  assert (from_first is_mk0 (pre ++ MK true 0 :: post) = Some (MK true 0 :: post)) as ->; [|reflexivity].
+  clear He. induction pre as [|x t IH]; [reflexivity|]. cbn [forallb] in Hf. apply andb_true_iff in Hf. destruct Hf as [Hx Hf].
+  cbn [app from_first]. destruct (is_mk0 x); [discriminate|]. apply IH. assumption.
+Qed.
+
+(* ================================================================================================
+   4. all boards; the whole program
+   ================================================================================================ *)
+Definition rows_of_fifos (fs : list (N * list entry)) : list row :=
+  flat_map (fun bf => rows_spec (fst bf) None (snd bf)) fs.
+
+Lemma all_rows_spec : forall fs, all_rows fs = Ok (rows_of_fifos fs).
+Proof.
+  induction fs as [|[b f] fs IH]; [reflexivity|].
+  cbn [all_rows rows_of_fifos flat_map fst snd]. rewrite board_rows_spec, IH. reflexivity.
+Qed.
+
+(* the per-board results, in the order of the buffers *)
+Lemma cb_fifos_ok : forall m fs, cb_fifos m = Ok fs <->
+  Forall2 (fun bb bf => fst bf = fst bb /\ cb_board_fifo (snd bb) = Ok (snd bf)) m fs.
+Proof.
+  induction m as [|[b buf] m IH]; intros fs; cbn [cb_fifos].
+  - split; [intros [= <-]; constructor|]. intros H. inversion H. reflexivity.
+  - split.
+    + destruct (cb_board_fifo buf) as [f| |] eqn:Eb; cbn [bind]; try discriminate.
+      destruct (cb_fifos m) as [fs'| |] eqn:Ef; cbn [bind]; try discriminate.
+      intros [= <-]. constructor; [split; [reflexivity|assumption]|]. apply IH. reflexivity.
+    + intros H. inversion H as [|bb [b' f] m' fs' [Hb Hf] Hr]; subst. cbn [fst snd] in *. subst b'.
+      rewrite Hf. cbn [bind]. apply IH in Hr. rewrite Hr. reflexivity.
+Qed.
+
+Lemma cb_fifos_no_panic : forall m, cb_fifos m <> Panic.
+Proof.
+  induction m as [|[b buf] m IH]; cbn [cb_fifos]; [discriminate|].
+  pose proof (cb_board_fifo_no_panic buf). destruct (cb_board_fifo buf); cbn [bind]; try congruence.
+  destruct (cb_fifos m); cbn [bind]; congruence.
+Qed.
+
+Lemma cb_fifos_fail : forall m b buf k, In (b, buf) m -> cb_board_fifo buf = Err k -> exists k', cb_fifos m = Err k'.
+Proof.
+  induction m as [|[b' buf'] m IH]; intros b buf k Hi He; [destruct Hi|]. cbn [cb_fifos].
+  destruct Hi as [[= -> ->]|Hi].
+  - rewrite He. cbn [bind]. eauto.
+  - pose proof (cb_board_fifo_no_panic buf'). destruct (cb_board_fifo buf'); cbn [bind]; try congruence; eauto.
+    destruct (IH b buf k Hi He) as (k' & ->). cbn [bind]. eauto.
+Qed.
+
+Theorem cb_program_ok pieces rows :
+  cb_program pieces = Ok rows <->
+  exists fs, cb_fifos (cb_buffers pieces) = Ok fs /\ rows = rows_of_fifos fs.
+Proof.
+  unfold cb_program. split.
+  - destruct (cb_fifos (cb_buffers pieces)) as [fs| |]; cbn [bind]; try discriminate.
+    rewrite all_rows_spec. intros [= <-]. eauto.
+  - intros (fs & -> & ->). cbn [bind]. apply all_rows_spec.
+Qed.
+
+Theorem cb_program_no_panic pieces : cb_program pieces <> Panic.
+Proof.
+  unfold cb_program. pose proof (cb_fifos_no_panic (cb_buffers pieces)).
+  destruct (cb_fifos (cb_buffers pieces)); cbn [bind]; try congruence. rewrite all_rows_spec. discriminate.
+Qed.
+
+Theorem cb_program_fail pieces b buf k :
+  In (b, buf) (cb_buffers pieces) -> cb_board_fifo buf = Err k -> exists k', cb_program pieces = Err k'.
+Proof.
+  intros Hi He. unfold cb_program. destruct (cb_fifos_fail _ _ _ _ Hi He) as (k' & ->). cbn [bind]. eauto.
+Qed.
+
+(* ================================================================================================
+   5. the hardware model: its stream parses back to its entries
+   ================================================================================================ *)
+Lemma le32_split hi m : hi < 256 -> m < 16777216 ->
+  exists b0 b1 b2, le32 (hi * 16777216 + m) = [b0; b1; b2; hi] /\ b0 < 256 /\ b1 < 256 /\ b2 < 256 /\
+    b0 + 256 * b1 + 65536 * b2 = m /\ b0 mod 2 = m mod 2 /\ (128 <=? b2) = (8388608 <=? m).
+Proof.
+  intros Hh Hm. unfold le32.
+  exists ((hi * 16777216 + m) mod 256), ((hi * 16777216 + m) / 256 mod 256), ((hi * 16777216 + m) / 65536 mod 256).
+  split; [do 3 f_equal; f_equal; lia|].
+  split; [lia|]. split; [lia|]. split; [lia|]. split; [lia|]. split; [lia|].
+  destruct (N.leb_spec 8388608 m); [apply N.leb_le | apply N.leb_gt]; lia.
+Qed.
+
+Lemma hw_edge_word T ch tr rest : ch < 59 ->
+  exists b0 b1 b2 b3, hw_bytes (HEdge T ch tr) ++ rest = b0 :: b1 :: b2 :: b3 :: rest /\
+    word b0 b1 b2 b3 = Some (TS ch tr (T mod TURN / 2 * 2)).
+Proof.
+  intros Hc. cbn [hw_bytes]. unfold edge_word, TURN.
+  set (m := T mod 16777216 / 2 * 2 + (if tr then 1 else 0)).
+  assert (Hm : m < 16777216) by (subst m; destruct tr; lia).
+  destruct (le32_split (128 + ch) m ltac:(lia) Hm) as (b0 & b1 & b2 & Hl & H0 & H1 & H2 & Hs & Hp & _).
+  rewrite <- N.add_assoc. fold m. rewrite Hl. exists b0, b1, b2, (128 + ch). split; [reflexivity|].
+  rewrite cb_classify_word_lemma by lia. unfold word_spec, temp24.
+  replace (128 <=? 128 + ch) with true by (symmetry; apply N.leb_le; lia).
+  replace (128 + ch <? 128 + 59) with true by (symmetry; apply N.ltb_lt; lia). cbn [andb].
+  f_equal. f_equal.
+  - lia.
+  - subst m. destruct tr; [apply N.eqb_eq | apply N.eqb_neq]; lia.
+  - rewrite Hs. subst m. destruct tr; lia.
+Qed.
+
+Lemma oddN_cases c : (oddN c = true /\ c mod 2 = 1) \/ (oddN c = false /\ c mod 2 = 0).
+Proof. unfold oddN. destruct (N.eqb_spec (c mod 2) 1); [left|right]; split; auto; lia. Qed.
+
+Lemma hw_marker_word c rest :
+  exists b0 b1 b2 b3, hw_bytes (HMarker c) ++ rest = b0 :: b1 :: b2 :: b3 :: rest /\
+    word b0 b1 b2 b3 = Some (MK (oddN c) (c mod HALF)).
+Proof.
+  cbn [hw_bytes]. unfold marker_word, TURN, HALF.
+  set (m := (if oddN c then 8388608 else 0) + c mod 8388608).
+  assert (Hm : m < 16777216) by (subst m; destruct (oddN c); lia).
+  destruct (le32_split 255 m ltac:(lia) Hm) as (b0 & b1 & b2 & Hl & H0 & H1 & H2 & Hs & _ & Ht).
+  rewrite <- N.add_assoc. fold m. rewrite Hl. exists b0, b1, b2, 255. split; [reflexivity|].
+  rewrite cb_classify_word_lemma by lia. unfold word_spec, temp24.
+  change ((128 <=? 255) && (255 <? 128 + 59)) with false. change (255 =? 255) with true. cbn iota.
+  rewrite Hs, Ht. f_equal. f_equal.
+  - subst m. destruct (oddN c); [apply N.leb_le | apply N.leb_gt]; lia.
+  - subst m. destruct (oddN c); lia.
+Qed.
+
+Lemma hw_elems : forall evs k, hw_wf k evs -> Elems (hw_stream evs) (hw_entries evs).
+Proof.
+  induction evs as [|ev r IH]; intros k Hw; cbn [hw_stream hw_entries]; [constructor|].
+  destruct ev as [T ch tr|c|body]; cbn [hw_wf] in Hw.
+  - destruct Hw as (Hc & _ & _ & Hw).
+    destruct (hw_edge_word T ch tr (hw_stream r) Hc) as (b0 & b1 & b2 & b3 & -> & Hword).
+    econstructor; [exact Hword|]. eapply IH; eassumption.
+  - destruct Hw as (_ & _ & Hw).
+    destruct (hw_marker_word c (hw_stream r)) as (b0 & b1 & b2 & b3 & -> & Hword).
+    econstructor; [exact Hword|]. eapply IH; eassumption.
+  - destruct Hw as (Hb & Hw). cbn [hw_bytes app]. constructor; [assumption|]. eapply IH; eassumption.
+Qed.
+
+Theorem hw_parse evs k : hw_wf k evs -> cb_fifo (hw_stream evs) = (hw_entries evs, []).
+Proof.
+  intros Hw. rewrite <- (app_nil_r (hw_stream evs)). apply cb_fifo_elems; [|reflexivity]. eapply hw_elems; eassumption.
+Qed.
